@@ -12,3 +12,10 @@ package walker
 //@   assert before walker.Walk#3 : [C15] implies(unresolved, schemacontext.HasUnknownSchema(arg0))
 //@   assert before walker.Walk#1 : [C15] implies(!typeis(nodeSchema, "*schema.BodySchema"), schemacontext.HasUnknownSchema(arg0))
 //@   assert before walker.Walk#2 : [C15] implies(!typeis(nodeSchema, "*schema.BodySchema"), schemacontext.HasUnknownSchema(arg0))
+
+// ---- every element is examined: the loops below have no break and no return inside, i.e. they are left only
+// ---- when their range is exhausted (generated from the control-flow graph of the pinned tree with
+// ---- `govc loops`; tagged with the properties anchored in the function's file). An added early exit in a
+// ---- collecting loop silently drops the remaining elements.
+//@ loop-complete walker.Walk 1 C15
+//@ loop-complete walker.Walk 2 C15
